@@ -144,6 +144,17 @@ func runC03(c *Ctx) {
 		}
 		c03Text(c, "random", s)
 	}
+	// 3b. raw UTF-8 text (what users type) next to backslash runs and the final dot: the escape parity must be
+	//     counted in octets, not runes
+	for _, pre := range []string{"", "a.", "x\\.y.", "\xc3\xa9."} {
+		for _, u := range []string{"\xc3\xa9", "\xe2\x82\xac", "\xf0\x9f\x98\x80", "a\xc3\xa9", "\xc3", "\xa9", "\xff", "e"} {
+			for k := 0; k <= 5; k++ {
+				for _, end := range []string{".", "", ".."} {
+					c03Text(c, "utf8", pre+u+strings.Repeat("\\", k)+end)
+				}
+			}
+		}
+	}
 	// 4. hostile wire (pointers, reserved bits) -> correspondence of the decoder
 	n = c.Scale(20000, 300000)
 	for i := 0; i < n; i++ {
